@@ -1,5 +1,5 @@
 // Package c10: regular expressions - sound translation and the ES5 matching
-// protocol (spec/RegExpSpec.tla, spec/C10.tla, spec/C10H.tla).  TLC enumerates
+// protocol (spec/RegExpSpec.tla, spec/C10.tla, spec/C10H.tla, spec/C10Judge.tla).  TLC enumerates
 // the cases and computes the outcome ES5 prescribes; this package renders the
 // cases, projects the observations and compares.
 package c10
@@ -29,10 +29,19 @@ function ENCOBJ(v){
     var a = [];
     for (var i = 0; i < v.length; i++) a.push(ENCV(v[i]));
     if (Object.prototype.hasOwnProperty.call(v, "index") || Object.prototype.hasOwnProperty.call(v, "input"))
-      return {t:"match", index:ENCV(v.index), input:ENCV(v.input), caps:a};
+      return {t:"match", index:ENCV(v.index), input:ENCV(v.input), caps:a, attr:WEC(v, "index").concat(WEC(v, "input"))};
     return {t:"arr", a:a};
   }
   return {t:"obj", cls:Object.prototype.toString.call(v)};
+}
+// [writable, enumerable, configurable] of an own data property (all false when it is missing)
+function WEC(o, k){
+  var d = Object.getOwnPropertyDescriptor(o, k);
+  return d === undefined ? [false, false, false] : [d.writable === true, d.enumerable === true, d.configurable === true];
+}
+// 15.10.7: values and attributes of the instance properties
+function PROPS(r){
+  return [r.global, r.ignoreCase, r.multiline, r.lastIndex].concat(WEC(r, "source"), WEC(r, "global"), WEC(r, "ignoreCase"), WEC(r, "multiline"), WEC(r, "lastIndex"));
 }
 // exec on each subject from lastIndex 0: [[result, lastIndex after], ...]
 function EXECALL(r, ss){
